@@ -18,24 +18,30 @@ GEN_MODULES = ["Ecdsa", "VarInt"]
 RULE = ("toy curves: every (c, q, k, lower_s) for signing, every (r, s) in 0..n+1 x every key point for verification, "
         "every key_id for recovery; catalogued curves: seeded random + boundary scalars/messages with sha256/sha1/sha512; "
         "DER: structure-aware mutations of valid encodings + random strings; every secp256k1 line is evaluated under BOTH "
-        "backends (libsecp256k1 serving on/off) and the two answers must coincide; non-trivial = not refused at the "
+        "backends (libsecp256k1 serving on/off) and the two answers must coincide; bms: every flag x address type x low-s / "
+        "high-s twin x both arms; histories: every (build, use, use) dispatch state of a dsa.Signer; non-trivial = not refused at the "
         "first check; distinct = distinct (stream, op line)")
 TRUSTED = [
-    "Lawful for Btc.EC.ops C is PROVED by C01 (lawful_ec) on the n-torsion carrier for CurveOk curves with p = 3 mod 4; "
-    "CurveOk is instantiated at secp256k1 (kernel evaluation + Pratt certificates for p and n) and a 31-point toy curve "
-    "only: the other catalogued curves and the harness's toy curves are tied by correspondence",
-    "HMAC/SHA executables in Lean are validated against hashlib each run, not verified",
-    "modelled, tied by correspondence only: RFC 6979 byte plumbing (plus an independent in-harness RFC 6979 oracle), "
+    "Lawful for Btc.EC.ops C is PROVED by C01 (lawful_ec / lawfulGroup_ec) on the n-torsion carrier for CurveOk curves; "
+    "CurveOk is instantiated at secp256k1 (kernel evaluation + Pratt certificates for p and n; cofactor one proved: "
+    "Btc.E2E.secpCofactorOne) and a 31-point toy curve only: the other catalogued curves and the harness's toy curves are "
+    "tied by correspondence",
+    "HMAC/SHA/RIPEMD executables in Lean are validated against hashlib each run, not verified",
+    "modelled, tied by correspondence only: RFC 6979 byte plumbing (plus independent in-harness RFC 6979 oracles), "
     "DER reader, public entry-point glue (argument checks, dispatch to libsecp256k1, libsecp256k1's own x-coordinate "
-    "test; the Python arm's test isXCoord is proved complete)",
+    "test; the model's test isXCoord (Euler's criterion) is proved complete and stream-compared with btclib's Jacobi loop), "
+    "bms.sign / bms.assert_as_valid on secp256k1 (T8d is proved over Lawful groups, not transferred to EC.ops), "
+    "the bindings arm of bms and dsa.Signer (oracles bms.matrix, signer.history)",
     "points with y = 0 (2-torsion, only on even-order toy curves) are infinity for the GroupOps abstraction as for "
     "btclib's affine API: verification cases whose K is such a point, and recovery candidates lifted from a 2-torsion "
     "x, are decided by the brute-force SEC 1 oracle only",
 ]
 ASSUMPTIONS = [
-    "cofactor one (hcof: the curve has exactly n points) for the E2E statements about ARBITRARY keys; not proved for "
-    "secp256k1 (no point count). Keys built from G need no assumption",
+    "secp256k1: none (primality of p, n and cofactor one are proved)",
+    "generic CurveOk curve, ARBITRARY keys (ecdsa_verify_api_is_sec1_ec_cofactor_one only): cofactor one (hcof); keys "
+    "built from G or in the n-torsion carrier need no assumption",
     "p = 3 (mod 4) on the E2E recovery theorems only (lift_x); sign/verify E2E theorems hold on every odd prime field",
+    "bms_sign_then_verify: p < 2n, serialization a function of the group element, complete x-coordinate screen",
     "primality of n for curves other than secp256k1 (secp256k1: proved, Btc.E2E.secp256k1_p_prime/_n_prime)",
     "unforgeability is not a theorem",
 ]
@@ -221,7 +227,7 @@ def _impl(line: str) -> str:  # noqa: C901, PLR0911, PLR0912
     op = t[0]
     if op.startswith("der.") or op.startswith("bms."):
         return _impl_der_bms(t)
-    ec = curve(t[1])
+    ec = curve(t[1]) if op != "ecdsa.verifyder" else secp256k1
     secp = ec == secp256k1
     if op == "ecdsa.sign":
         c, q, k, ls = int(t[2]), int(t[3]), int(t[4]), t[5] == "1"
@@ -247,6 +253,9 @@ def _impl(line: str) -> str:  # noqa: C901, PLR0911, PLR0912
                     return "err foreign"
             return f"ok {b} {a}"
         return both(lambda: _call(f, lambda v: v), secp)
+    if op == "ecdsa.verifyder":
+        hf, m, qx, qy, sg = HF[t[1]], unhx(t[2]), int(t[3]), int(t[4]), unhx(t[5])
+        return both(lambda: _call(lambda: dsa.verify_(m, (qx, qy), sg, hf), lambda v: f"ok {v}"), True)
     if op == "ecdsa.challenge":
         return _call(lambda: challenge_(unhx(t[3]), ec, HF[t[2]]), lambda v: f"ok {v}")
     if op == "rfc.nonce":
@@ -290,11 +299,59 @@ def _impl_der_bms(t) -> str:
     if op == "der.ser":
         return _call(lambda: dsa.Sig(int(t[1]), int(t[2]), check_validity=False).serialize(check_validity=False),
                      lambda v: "ok " + hx(v))
+    if op == "bms.sign":
+        return _bms_sign_line(t)
+    if op == "bms.verify":
+        return _bms_verify_line(t)
     if op == "bms.flag":
         return _bms_flag(int(t[1]), t[2] == "1", t[3])
     if op == "bms.read":
         return _bms_read(int(t[1]), t[2])
     return "bad-op"
+
+
+def bms_addr_payload(addr: str):
+    """(type token, 20-octet payload) of an address, as the model's `Bms.Addr`"""
+    from btclib.b32 import is_segwit_prefixed, witness_from_address
+    from btclib.b58 import h160_from_address
+    if is_segwit_prefixed(addr):
+        return "p2wpkh", witness_from_address(addr)[1]
+    typ, h160, _ = h160_from_address(addr)
+    return ("p2pkh" if typ == "p2pkh" else "p2sh"), h160
+
+
+def bms_digest(msg: bytes) -> bytes:
+    """the digest dsa.sign_recoverable / recover_pub_key work on: hf(magic_message(msg))"""
+    from btclib.hashes import magic_message
+    return hashlib.sha256(magic_message(msg)).digest()
+
+
+def _bms_sign_line(t) -> str:
+    # bms.sign <digest> <q> <compressed> <type|-> <payload|-> <msg> <addr|->
+    from btclib.b58 import wif_from_prv_key
+    mm, q, comp, msg, addr = unhx(t[1]), int(t[2]), t[3] == "1", unhx(t[6]), (None if t[7] == "-" else t[7])
+    if bms_digest(msg) != mm or (addr is not None and bms_addr_payload(addr) != (t[4], unhx(t[5]))):
+        raise common.HarnessError(f"bms.sign line inconsistent: {t}")
+    wif = wif_from_prv_key(q, "mainnet", comp)
+    return both(lambda: _call(lambda: bms.sign(msg, wif, addr), lambda v: f"ok {v.rf} {v.dsa_sig.r} {v.dsa_sig.s}"), True)
+
+
+def _bms_verify_line(t) -> str:
+    # bms.verify <digest> <type> <payload> <rf> <r> <s> <msg> <addr>
+    mm, rf, r, s, msg, addr = unhx(t[1]), int(t[4]), int(t[5]), int(t[6]), unhx(t[7]), t[8]
+    if bms_digest(msg) != mm or bms_addr_payload(addr) != (t[2], unhx(t[3])):
+        raise common.HarnessError(f"bms.verify line inconsistent: {t}")
+    sig = bms.Sig(rf, dsa.Sig(r, s, check_validity=False), check_validity=False)
+    with serving(False):
+        py = _call(lambda: bms.assert_as_valid(msg, addr, sig), lambda _v: "ok")
+        pyb = bms.verify(msg, addr, sig)
+    with serving(True):
+        lib = _call(lambda: bms.assert_as_valid(msg, addr, sig), lambda _v: "ok")
+        libb = bms.verify(msg, addr, sig)
+    # the exception CLASS of a refusal is compared on the Python arm; the arms must agree on the verdict
+    if (py == "ok") != (lib == "ok") or pyb != (py == "ok") or libb != (lib == "ok"):
+        return f"backend-divergence lib=[{lib} {libb}] py=[{py} {pyb}]"
+    return py
 
 
 _BMS_Q = 0xC0FFEE
@@ -1480,6 +1537,57 @@ def run(ctx):  # noqa: C901, PLR0912, PLR0915
     for _ in range(ctx.n(6, 60)):
         ctx.check("bms.chain", {"q": rng.randrange(1, secp256k1.n), "compressed": rng.random() < 0.6,
                                 "msg": common.rand_bytes(rng, rng.choice([0, 1, 20, 252, 253, 300])).hex()})
+    # the bms scheme model (Bms.sign / Bms.assertAsValid) against the real functions, both arms: every address of the
+    # key and addresses that are not the key's; then the signature and its high-s twin under flags 26..43 on every address
+    from btclib.b32 import p2wpkh as _p2wpkh
+    from btclib.b58 import p2pkh as _p2pkh, p2wpkh_p2sh as _p2sh, wif_from_prv_key as _wif
+    bsl, bvl = [], []
+    for i in range(ctx.n(2, 12)):
+        q = _scalars(rng, secp256k1.n, 1)[0]
+        q2 = rng.randrange(1, secp256k1.n)
+        comp = i % 3 != 2
+        msg = common.rand_bytes(rng, rng.choice([0, 1, 20, 253]))
+        mm = bms_digest(msg)
+        wif, wifc, wif2 = _wif(q, "mainnet", comp), _wif(q, "mainnet", True), _wif(q2, "mainnet", True)
+        own = {"p2pkh": _p2pkh(wif)}
+        if comp:
+            own.update(p2sh=_p2sh(wif), p2wpkh=_p2wpkh(wif))
+        others = [_p2pkh(wif2), _p2sh(wif2), _p2wpkh(wif2), _p2pkh(_wif(q, "mainnet", not comp)), _p2sh(wifc), _p2wpkh(wifc)]
+        for addr in [None, *own.values(), *others]:
+            typ, pay = ("-", b"") if addr is None else bms_addr_payload(addr)
+            bsl.append(f"bms.sign {hx(mm)} {q} {int(comp)} {typ} {hx(pay) if addr else '-'} {hx(msg)} {addr or '-'}")
+        with serving(False):
+            sig0 = bms.sign(msg, wif)
+        r, s_, kid = sig0.dsa_sig.r, sig0.dsa_sig.s, (sig0.rf - 27) % 4
+        n_ = secp256k1.n
+        targets = list(own.values()) + ([others[0]] if i % 2 else [others[4 if not comp else 1]])
+        for (rr, ss) in [(r, s_), (r, n_ - s_), (r, s_ + 1), (r + 1, s_), (r, 0), (r, n_), (0, s_), (n_ + r, s_)]:
+            for addr in targets:
+                typ, pay = bms_addr_payload(addr)
+                flags = range(26, 44) if (rr, ss) in ((r, s_), (r, n_ - s_)) else [sig0.rf, 27 + kid, 35 + kid, 39 + (kid ^ 1)]
+                for rf in flags:
+                    bvl.append(f"bms.verify {hx(mm)} {typ} {hx(pay)} {rf} {rr} {ss} {hx(msg)} {addr}")
+    ctx.stream("bms.sign", bsl)
+    ctx.stream("bms.verify", bvl, nontrivial=lambda ln, out: True)
+    # the verify ENTRY POINT on raw octets (DER signature, digest of any size, any integer pair), both arms
+    el = []
+    for i in range(ctx.n(12, 120)):
+        q = _scalars(rng, secp256k1.n, 1)[0]
+        m = common.rand_bytes(rng, 32)
+        with serving(False):
+            sg = dsa.sign_(m, q, None, bool(i % 2), secp256k1, hashlib.sha256, grind=False)
+        Q = mult(q, secp256k1.G, secp256k1)
+        der = sg.serialize(check_validity=False)
+        for (mmm, QQ, dd) in [(m, Q, der), (m[:-1], Q, der), (m + b"\x00", Q, der), (b"", Q, der), (m, (Q[0], Q[1] + 1), der),
+                              (m, (Q[0] + secp256k1.p, Q[1]), der), (m, (0, 0), der), (m, Q, der + b"\x00"), (m, Q, der[:-1]),
+                              (m, Q, b""), (m, Q, dsa.Sig(sg.r, secp256k1.n - sg.s, check_validity=False).serialize(check_validity=False)),
+                              (m, Q, dsa.Sig(sg.r, secp256k1.n, check_validity=False).serialize(check_validity=False)),
+                              (m, Q, dsa.Sig(0, sg.s, check_validity=False).serialize(check_validity=False)),
+                              (m, mult(q + 1, secp256k1.G, secp256k1), der)]:
+            el.append(f"ecdsa.verifyder sha256 {hx(mmm)} {QQ[0]} {QQ[1]} {hx(dd)}")
+        for _, b in der_cases(rng, 6):
+            el.append(f"ecdsa.verifyder sha256 {hx(m)} {Q[0]} {Q[1]} {hx(b)}")
+    ctx.stream("ecdsa.verifyder", el, nontrivial=lambda ln, out: True)
     # every flag 24..45 x every address of the key x low-s / high-s twin x both arms, against the table of the docstring
     for i in range(ctx.n(4, 40)):
         ctx.check("bms.matrix", {"q": _scalars(rng, secp256k1.n, 1)[0], "compressed": i % 4 != 3,
